@@ -200,7 +200,7 @@ func runC10(c *ShardCtx) {
 func lrGrammars() []*peg.Grammar {
 	var out []*peg.Grammar
 	tails := []*peg.Expr{peg.Lit("a"), peg.Cls(false, false, "a", "b"), peg.Seq(peg.Lit("a"), peg.StateCode(0)), peg.Lit("ab")}
-	bases := []*peg.Expr{peg.Lit("b"), peg.Lit("a"), peg.Seq(peg.StateCode(0), peg.Lit("b"))}
+	bases := []*peg.Expr{peg.Lit("b"), peg.Lit("a"), peg.Seq(peg.StateCode(0), peg.Lit("b")), peg.Opt(peg.Lit("b")), peg.Lit("")}
 	for _, t := range tails {
 		for _, b := range bases {
 			out = append(out,
